@@ -464,6 +464,23 @@ func main() {
 		for k, v := range total.Bounds {
 			fmt.Printf("  bound %s: %s\n", k, v)
 		}
+		byClause := map[string]int{}
+		example := map[string]string{}
+		for _, f := range confirmed {
+			k := f.Clause + " tags=" + strings.Join(f.Tags, ",")
+			byClause[k]++
+			if e, ok := example[k]; !ok || len(f.Case) < len(e) {
+				example[k] = f.Case + " :: expected " + oneLine(f.Expected) + " :: got " + oneLine(f.Got)
+			}
+		}
+		var ks []string
+		for k := range byClause {
+			ks = append(ks, k)
+		}
+		sort.Strings(ks)
+		for _, k := range ks {
+			fmt.Printf("  failing %3d x %s\n        e.g. %s\n", byClause[k], k, example[k])
+		}
 	}
 	for i, n := range knownSeen {
 		fmt.Printf("KNOWN-FINDING: property=%s %s [%d failing cases attributed]\n", id, findings[i].What, n)
